@@ -658,12 +658,16 @@ def fromTransformation (inner : Wf) (tr : Trafo) : Except Err Wf :=
 def mkArith (l : Wf) (op : ArithOp) (r : Wf) : Except Err Wf :=
   if npIsclose (duration l) (duration r) then .ok (.arith l op r) else .error .assertionError
 
+/-- the value `from_operator` stores for a channel of the right operand -/
+def mergeVal (op : ArithOp) (dl : List (Chan × Rat)) (c : Chan) (rv : Rat) : Rat :=
+  match dl.lookup c with
+  | some lv => op.applyR lv rv
+  | none => op.rhsOnlyR rv
+
 /-- the merged dictionary of `from_operator`.  The Python loop looks `ch` up in the dictionary it is
 updating; `rhs_cv` is a dict (every key once), so that is the value `lhs_cv` had. -/
 def mergeConstants (op : ArithOp) (dl dr : List (Chan × Rat)) : List (Chan × Rat) :=
-  dr.foldl (fun acc cr => dinsert cr.1 (match dl.lookup cr.1 with
-    | some lv => op.applyR lv cr.2
-    | none => op.rhsOnlyR cr.2) acc) dl
+  dr.foldl (fun acc cr => dinsert cr.1 (mergeVal op dl cr.1 cr.2) acc) dl
 
 /-- `ArithmeticWaveform.from_operator(lhs, op, rhs)` -/
 def fromOperator (l : Wf) (op : ArithOp) (r : Wf) : Except Err Wf :=
